@@ -21,6 +21,15 @@ void use()
     std::vector<std::string> sink;
     ml.broadcast(std::string("v"));
     ml.drain(sink);
+    std::atomic<int> cnt{0};
+    {
+        armed_token t1(&cnt);
+        armed_token t2(std::move(t1));
+        safe_token s1(cnt);
+        safe_token s2(std::move(s1));
+    }
+    (void)uninit_local::bad();
+    (void)uninit_local::good(true);
     bad_cv f;
     f.set();
     f.wait();
